@@ -149,11 +149,11 @@ partial def dwJson : DW → Json
   | .mk d f cs => Json.mkObj [("dests", jstrs d), ("defaults", Json.arr (f.map (fun (n : Nat) => (Json.num (JsonNumber.fromNat n)))).toArray),
                               ("children", Json.arr (cs.map dwJson).toArray)]
 
-/-- op `merge.dests`: {first: DW, others: [DW…]} ↦ the merged wrapper tree -/
+/-- op `merge.dests`: {root: bool, first: DW, others: [DW…]} ↦ the merged wrapper tree -/
 def opMergeDests (c : Json) : R Json := do
   let first ← parseDW (← obj c "first")
   let others ← (← arr c "others").toList.mapM parseDW
-  return dwJson (mergeAll first others)
+  return dwJson (mergeAll (← bool c "root") first others)
 
 end SpVerif.Drive.MergeD
 
